@@ -406,3 +406,11 @@ mod tests {
         );
     }
 }
+
+#[cfg(feature = "verif-hooks")]
+impl Array6 {
+    /// Verification hook: `(num_zeros, estimator)`.
+    pub(super) fn verif_parts(&self) -> (u32, &HipEstimator) {
+        (self.num_zeros, &self.estimator)
+    }
+}
